@@ -705,7 +705,7 @@ def evaluate__parse_json_functions(self: XPathFunction, context: ta.ContextType 
             else:
                 with pathlib.Path(href).open() as fp:
                     json_text = fp.read()
-        except IOError:
+        except (IOError, ValueError):
             raise self.error('FOUT1170') from None
 
     else:
